@@ -1,6 +1,10 @@
 //! simctl - deterministic simulation with fault injection for mpolosak/SimpleSL.
 mod boot;
 mod canon;
+mod cellmodel;
+mod cellsim;
+mod ddmin;
+mod sched;
 mod corpus;
 mod driver;
 mod hashsim;
@@ -12,8 +16,8 @@ mod universe;
 
 use serde_json::Value;
 
-pub fn replay_other(sim: &str, _v: &Value) -> Result<bool, String> {
-    Err(format!("unknown sim {sim}"))
+pub fn replay_other(sim: &str, v: &Value) -> Result<bool, String> {
+    driver::confirm_any(sim, v)
 }
 
 fn usage() -> ! {
@@ -38,6 +42,7 @@ fn main() {
             }
             match p {
                 "C05" | "C15" => driver::check_hashsim(p, tier),
+                "C13" | "C16" => driver::check_cellsim(p, tier),
                 _ => usage(),
             }
         }
@@ -45,6 +50,7 @@ fn main() {
             let input = proc::read_stdin_json();
             let out = match args.get(2).map(|s| s.as_str()) {
                 Some("hashsim") => hashsim::worker(&input),
+                Some("cellsim") => cellsim::worker(&input),
                 _ => usage(),
             };
             println!("{out}");
@@ -54,6 +60,16 @@ fn main() {
             let input = proc::read_stdin_json();
             let out = match args.get(2).map(|s| s.as_str()) {
                 Some("hashsim") => hashsim::single(&input),
+                Some("cellsim") => cellsim::single(&input),
+                _ => usage(),
+            };
+            println!("{out}");
+            0
+        }
+        "minimise" => {
+            let input = proc::read_stdin_json();
+            let out = match args.get(2).map(|s| s.as_str()) {
+                Some("cellsim") => cellsim::minimise(&input),
                 _ => usage(),
             };
             println!("{out}");
